@@ -439,9 +439,13 @@ func runCheck(args []string) int {
 	if samples == nil {
 		ev["coverage"].(map[string]interface{})["samples"] = []interface{}{}
 	}
-	os.MkdirAll(filepath.Join(verifDir, "evidence"), 0o755)
+	evDir := filepath.Join(verifDir, "evidence")
+	if d := os.Getenv("GOVC_EVIDENCE_DIR"); d != "" {
+		evDir = d // scratch runs (seeded changes) must not overwrite the committed evidence
+	}
+	os.MkdirAll(evDir, 0o755)
 	b, _ := json.MarshalIndent(ev, "", " ")
-	os.WriteFile(filepath.Join(verifDir, "evidence", *prop+".json"), append(b, '\n'), 0o644)
+	os.WriteFile(filepath.Join(evDir, *prop+".json"), append(b, '\n'), 0o644)
 	if violations > 0 {
 		return 1
 	}
